@@ -144,6 +144,16 @@ def r19_1(ctx, counts: dict[str, int]) -> RuleResult:
                 for fact in facts[rn.id]:
                     if fact.startswith('-self.') and fact.endswith(' is None'):
                         state_attrs.add(fact[1:-len(' is None')])
+            # (the fact may be killed before the release by `self.X = None` in the same finally:
+            # also read the attribute from the tests of __exit__ themselves)
+            for tn in ecfg.nodes:
+                if tn.kind == 'test':
+                    t = tn.ast.test if isinstance(tn.ast, (ast.If, ast.While)) else tn.ast
+                    if isinstance(t, ast.Compare) and len(t.ops) == 1 and \
+                            isinstance(t.ops[0], (ast.Is, ast.IsNot)) and \
+                            isinstance(t.comparators[0], ast.Constant) and \
+                            t.comparators[0].value is None and dotted(t.left).startswith('self.'):
+                        state_attrs.add(dotted(t.left))
             res.notes.append(f'{f.cls.name}: __exit__ releases under state {sorted(state_attrs)}')
             # B: normal exits of __enter__ keep the lock and set the state attribute
             p = cfg.path_avoiding(acq, is_rel, lambda n: n is cfg.raise_exit,
@@ -188,6 +198,47 @@ def r19_1(ctx, counts: dict[str, int]) -> RuleResult:
                     res.fail(finding('R19.1', f, p[0].ast, f'{attr} cleared',
                                      f'__enter__ can return with {attr} reset to None while '
                                      f'the lock is held', CFG.fmt_path(p)))
+                else:
+                    res.ok()
+            # F: the global state that __exit__ restores is read (and written) inside the
+            # critical section: every getlocale/setlocale call of __enter__ comes after acquire
+            for gn in cfg.nodes:
+                if gn.ast is None or gn.kind not in ('stmt', 'test'):
+                    continue
+                if not any(isinstance(x, ast.Call) and dotted(x.func) in
+                           ('locale.getlocale', 'locale.setlocale') for x in ast.walk(gn.ast)):
+                    continue
+                p = cfg.path_avoiding([cfg.entry], lambda n, gn=gn: n is gn,
+                                      lambda n: n in acq)
+                if p is not None:
+                    res.fail(finding('R19.1', f, gn.ast, 'locale access before acquire',
+                                     f'`{gn.text()[:60]}` runs before the lock is acquired: a '
+                                     f'thread entering while another is inside its collation block '
+                                     f'records that thread\'s temporary locale and restores it on '
+                                     f'exit (LC_COLLATE stays changed after both evaluations)',
+                                     CFG.fmt_path(p)))
+                else:
+                    res.ok()
+            # E: __exit__: every normal path on which the state attribute says "lock taken"
+            # (i.e. not through the `attr is None` branch) passes a release
+            for attr in sorted(state_attrs):
+                def taken_edge(nd: Node, lb: str, attr=attr) -> bool:
+                    if nd.kind == 'test' and nd.ast is not None:
+                        t = stmt_text(nd.ast.test if isinstance(nd.ast, (ast.If, ast.While))
+                                      else nd.ast)
+                        if t == f'{attr} is None' and lb == 'true':
+                            return False
+                        if t == f'{attr} is not None' and lb == 'false':
+                            return False
+                    return lb != 'exc'
+                p = ecfg.path_avoiding([ecfg.entry], lambda n: n is ecfg.exit, is_rel,
+                                       edge_ok=taken_edge)
+                if p is not None:
+                    res.fail(finding('R19.1', ex, ex.node, 'exit-without-release',
+                                     f'__exit__ has a normal path on which {attr} is not None '
+                                     f'(the lock was taken by __enter__) that returns without '
+                                     f'release(): the lock stays held and every later collation '
+                                     f'in another thread blocks', CFG.fmt_path(p)))
                 else:
                     res.ok()
             # C: __exit__: may-raise nodes before a release need release on the exception path
